@@ -4,7 +4,7 @@ cryptography.*, twisted.*"""
 import types
 
 from .. import loader
-from . import struct_m, io_m, env_m, crypto_m, stubs_m
+from . import struct_m, io_m, env_m, crypto_m, stubs_m, path_m
 
 loader.MODELS['struct'] = struct_m.module
 loader.MODELS['io'] = io_m.module
